@@ -113,7 +113,20 @@ def check_logs(ctx, logs, label, project=None, shard=8):
     for ep in sorted(logs):
         lg = logs[ep]
         exp = [norm(e) for e in lg.expected]
-        cases.append(([lg.model_input(), exp], []))
+        # a state equal to the one after the previous call on the same IkeSa is written "SAME" (smaller literals)
+        last, packed = {}, []
+        for c, e in zip(lg.calls, exp):
+            sid = c[1]
+            if c[0] != 7 and sid in last and last[sid] == e[0]:
+                packed.append(['SAME'] + e[1:])
+            else:
+                packed.append(e)
+            if c[0] == 7:
+                last[sid] = e[0]
+                last[c[2][0]] = None
+            else:
+                last[sid] = e[0]
+        cases.append(([lg.model_input(), packed], []))
         names.append((ep, lg, exp))
     bad = core.run_cases(ctx, 'ikesa', 'From IkeSa Require Import HdlRun.', 'run_hdl_check', cases, shard=shard,
                          name='hdl_' + ''.join(c if c.isalnum() else '_' for c in label)[:40])
@@ -154,17 +167,25 @@ EXTRA_CONFS = [
 
 def scenario_set(ctx, deep):
     """(label, actions, conf, seed) of the runs whose calls are replayed in the model."""
-    from sim.scenarios import SCRIPTED, CONF_FAMILY, scripted, random_walk
+    from sim.scenarios import SCRIPTED, SPECIAL, CONF_FAMILY, scripted, random_walk
     out = []
-    for name in SCRIPTED:
+    for name in SCRIPTED + SPECIAL:
         out.append((f'{name}/conf0', scripted(name), {}, 0))
+    out.append(('postponed_rekey_then_child/pfs', scripted('postponed_rekey_then_child'),
+                {'child_dh': ('15', '14'), 'child_dh_b': ('14',)}, 7))
+    # a kernel refusal at each of the first NEWSA requests of either side
+    for name in (['handshake', 'new_child', 'rekey_child'] if not deep else ['handshake', 'new_child', 'rekey_child',
+                                                                             'rekey_child_from_responder', 'rekey_ike']):
+        for side in 'AB':
+            for k in range(4 if not deep else 6):
+                out.append((f'{name}/kfail{side}{k}', [['kfail_newsa', side, k]] + scripted(name), {}, 0))
     fam = CONF_FAMILY[1:] + EXTRA_CONFS
     pick = ['handshake', 'rekey_child', 'rekey_ike_then_child', 'new_child_from_responder', 'simultaneous_rekey_child',
             'delete_child', 'simultaneous_rekey_ike']
     for ci, conf in enumerate(fam):
         for name in (pick if deep else pick[:3]):
             out.append((f'{name}/fam{ci + 1}', scripted(name), conf, ci + 1))
-    nwalk = 40 if deep else 10
+    nwalk = 40 if deep else 8
     for k in range(nwalk):
         rng = __import__('random').Random(ctx.seed * 1000 + k)
         conf = dict(rng.choice([{}] + fam[:8]))
